@@ -373,7 +373,7 @@ def gen_rep(rng):
     for _ in range(rng.choice([0, 1, 1, 2, 3, 4])):
         t = rng.below(10)
         if t < 4:
-            c = rng.choice(['X', 'Y', '-', 'é', '€', ' ', '&', '[', ']', '/', ',', 'n'])
+            c = rng.choice(['X', 'Y', '-', 'é', '€', ' ', '&', '[', ']', '/', ',', 'n', 'g', 'g', 'c', 'p'])
             toks.append((c, 'lit', c))
         elif t < 8:
             d = rng.choice('0011223456789')
@@ -381,9 +381,177 @@ def gen_rep(rng):
         elif t < 9:
             toks.append(('\\\\', 'lit', '\\'))
         else:
-            c = rng.choice(['n', 'a', '&', '.', 'é', '-'])
+            c = rng.choice(['n', 'a', '&', '.', 'é', '-', 'g'])
             toks.append(('\\' + c, 'lit', c))
     return toks
+
+
+# ---------------------------------------------------------------------------------------------
+# the flag stream: the g flag is the byte g AFTER the closing delimiter of the replacement and nothing else.  Replacements
+# are made of g and of the other letters ex implementations read as flags (literal, escaped, next to group references,
+# next to multi-byte characters); every (pattern, buffer, replacement) is run three times: .../rep/g  .../rep/  .../rep
+# (no closing delimiter), on lines planted with two or more matches so that "first match only" and "every match" differ.
+
+FLAG_WORDS = ['g', 'g', 'gg', 'dog', 'G', 'c', 'p', 'i', 'I', 'r', 'n', 'l', '&', '~', '#', 'kg', 'gé', '€g', ' g', 'g ', '<g>', 'X']
+
+
+def gen_flag_rep(rng):
+    toks = []
+    for _ in range(rng.choice([1, 1, 2, 2, 3])):
+        t = rng.below(10)
+        if t < 5:
+            w = rng.choice(FLAG_WORDS)
+            toks.append((w, 'lit', w))
+        elif t < 7:
+            c = rng.choice(['g', 'g', 'c', 'p', 'n', '&'])
+            toks.append(('\\' + c, 'lit', c))           # \g stands for g
+        elif t < 9:
+            d = rng.choice('0011')
+            toks.append(('\\' + d, 'grp', int(d)))
+        else:
+            toks.append(('\\\\', 'lit', '\\'))
+    if not any('g' in t[2] for t in toks if t[1] == 'lit') and rng.chance(3, 4):
+        toks.insert(rng.below(len(toks) + 1), ('g', 'lit', 'g'))
+    return toks
+
+
+def gen_flag_pattern(rng, ic):
+    """(Pat, texts it matches); one pattern in six contains the letter g itself (a g in the PATTERN is not a flag either)"""
+    t = rng.below(12)
+    if t < 2:
+        w = rng.choice(['g', 'dog', 'gg', 'ag'])
+        return p_lit(w, ic), [w]
+    if t == 2:
+        return p_grp(Pat('[0-9]', '[0-9]', False)), ['5', '7', '0']
+    if t == 3:
+        return Pat('x*', py_char('x', ic) + '*', True), ['', 'x', 'xx']
+    if t == 4:
+        w = rng.choice(['cat', 'é', 'ab'])
+        return p_grp(p_lit(w, ic)), [w]
+    return anchor_piece(rng, ic)
+
+
+def gen_flag_line(rng, smp):
+    fill = ['z', ' ', '-', 'g', 'é', ' g ', 'c']
+    n = rng.choice([2, 2, 3, 3, 4, 5])
+    toks = []
+    for i in range(n):
+        toks.append(rng.choice(smp))
+        if rng.chance(2, 3):
+            toks.append(rng.choice(fill))
+    if rng.chance(1, 4):
+        toks.insert(0, rng.choice(fill))
+    return ''.join(toks)
+
+
+# ---------------------------------------------------------------------------------------------
+# the interval stream: counted repetitions X{m,} X{m,n} X{n} with m >= 2 (and the controls {0,} {1,} + *) on runs of X whose
+# length is m-1, m, m+1, 2m-1, 2m, 2m+1, 3m+1, n, n+1 ...: an open-ended interval must take the WHOLE run (any length >= m,
+# not only multiples of m), a bounded one at most n, and what is left of the run is searched again under g.
+
+def gen_interval_pattern(rng, ic):
+    """returns (shape, Pat, unit texts, m, replacement tokens)"""
+    t = rng.below(11)
+    grp = False
+    if t < 3:
+        c = rng.choice(['x', 'a', 'b', 'é', '€', '1'])
+        body, units = p_lit(c, ic), [c]
+    elif t == 3:
+        body, units = Pat('[0-9]', '[0-9]', False), list('0123456789')
+    elif t == 4:
+        body, units = Pat('[ab]', '[abAB]' if ic else '[ab]', False), ['a', 'b']
+    elif t == 5:
+        body, units, grp = p_grp(p_lit('ab', ic)), ['ab'], True
+    elif t == 6:
+        body, units, grp = p_grp(p_alt(p_lit('a', ic), p_lit('bc', ic))), ['a', 'bc'], True
+    elif t == 7:
+        body, units = Pat('.', '.', False), ['x', 'é', ' ', 'q']
+    elif t == 8:
+        body, units = Pat('\\.', '\\.', False), ['.']
+    elif t == 9:
+        body, units, grp = p_grp(Pat('[a-c]', '[a-cA-C]' if ic else '[a-c]', False)), ['a', 'b', 'c'], True
+    else:
+        body, units = Pat('[^ -]', '[^ -]', False), ['x', 'é', 'a', '7']
+    m = rng.choice([2, 2, 2, 2, 3, 3, 4])
+    f = rng.below(12)
+    if f < 6:
+        op, shape = '{%d,}' % m, '{m,}'
+    elif f < 8:
+        n = m + rng.choice([0, 1, 1, 2, 3])
+        op, shape = '{%d,%d}' % (m, n), '{m,n}'
+    elif f < 10:
+        op, shape = '{%d}' % m, '{m}'
+    else:
+        op, shape = rng.choice([('{0,}', '{0,}'), ('{1,}', '{1,}'), ('+', '+'), ('*', '*')])
+    rep = Pat(body.nv + op, body.py + op, op in ('{0,}', '*'))
+    ctx = rng.below(9)
+    if ctx == 0:
+        p, shape = p_cat(BOL(), rep), '^' + shape
+    elif ctx == 1:
+        p, shape = p_cat(rep, EOL()), shape + '$'
+    elif ctx == 2:
+        p, shape = p_cat(p_lit('-', ic), rep), 'c' + shape
+    elif ctx == 3:
+        p, shape = p_cat(rep, p_lit('-', ic)), shape + 'c'
+    elif ctx == 4:
+        p, shape = p_alt(rep, p_lit('z', ic)), shape + '|c'
+    elif ctx == 5 and not grp:
+        p, shape, grp = p_grp(rep), '(' + shape + ')', True
+    else:
+        p = rep
+    toks = rng.choice([[('<', 'lit', '<'), ('\\0', 'grp', 0), ('>', 'lit', '>')], [('Y', 'lit', 'Y')], [], [('[', 'lit', '['), ('\\0', 'grp', 0), (']', 'lit', ']')]])
+    if grp and rng.chance(1, 2):
+        toks = [('[', 'lit', '['), ('\\1', 'grp', 1), ('|', 'lit', '|'), ('\\0', 'grp', 0), (']', 'lit', ']')]
+    return shape, p, units, m, toks
+
+
+def gen_interval_line(rng, units, m):
+    lens = [m - 1, m, m + 1, m + 1, 2 * m - 1, 2 * m, 2 * m + 1, 2 * m + 1, 3 * m + 1, 3 * m - 1, 1, m + 2]
+    out = []
+    for i in range(rng.choice([1, 1, 2, 2, 3, 4])):
+        if i or rng.chance(1, 2):
+            out.append(rng.choice([' ', '-', 'z', ' - ', 'z-']))
+        out.append(''.join(rng.choice(units) for _ in range(rng.choice(lens))))
+    if rng.chance(1, 3):
+        out.append(rng.choice([' ', '-', 'z']))
+    return ''.join(out)
+
+
+# ---------------------------------------------------------------------------------------------
+# the backslash stream: patterns and replacements that END in a run of backslashes in front of an explicitly typed
+# delimiter.  A backslash is read together with the byte after it, so a delimiter behind an even run closes (the text ends in
+# escaped backslashes), behind an odd run it is an escaped delimiter and the text goes on.  Lines hold  a\  and  a<delim>
+# side by side, so that taking one for the other changes the buffer.
+
+def gen_bslash_case(rng, d):
+    """(Pat, sample texts, replacement tokens)"""
+    base = rng.choice(['a', 'a', 'a', 'ab', 'é', '', 'x'])
+    nb = rng.choice([1, 1, 1, 2, 2, 3])                 # literal backslashes at the end of the pattern (2 nb in the source)
+    text = base + '\\' * nb
+    if rng.chance(1, 3):                                 # ... followed by a literal delimiter: an odd run in the source
+        text += d + rng.choice(['', '', 'b', '1'])
+    pat = p_lit(text, 0)
+    other = rng.choice([c for c in '/,#:;' if c != d])
+    smp = [text, text, base + '\\' * (nb - 1) + d, base + '\\' * nb + d, base + d, base + '\\' * (nb + 1), base + other, base + '\\' * nb + 'X',
+           base + '\\' * (nb - 1) + d + 'X']
+    toks = []
+    for _ in range(rng.choice([0, 1, 1, 2])):
+        c = rng.choice(['X', 'Y', 'g', d, '-', 'é'])
+        toks.append((c, 'lit', c))
+    if rng.chance(1, 4):
+        toks.append(('\\0', 'grp', 0))
+    if rng.chance(1, 2):                                 # the replacement ends in one or two literal backslashes as well
+        for _ in range(rng.choice([1, 1, 2])):
+            toks.append(('\\\\', 'lit', '\\'))
+    return pat, smp, toks
+
+
+def gen_bslash_line(rng, smp):
+    toks = []
+    for _ in range(rng.choice([1, 2, 2, 3, 4])):
+        toks.append(rng.choice(smp))
+        toks.append(rng.choice([' ', ' ', 'z', '-', '']))
+    return ''.join(toks)
 
 
 def esc_delim(text, d):
@@ -541,6 +709,55 @@ def run(ctx):
                     body = 's' + d + d + esc_delim(''.join(t[0] for t in toks2), d) + d + ('g' if g2 else '')
                     cmds.append({'range': (1, nl), 'text': '%' + body, 'body': body, 'pat': None, 'toks': toks2, 'g': g2})
                 cases.append({'ic': ic, 'lines': lines, 'cmds': cmds, 'kind': 'anchor stream', 'corpus': False, 'anchor': shape})
+
+        def one_cmd(rtxt, rg, d, pat, toks, g, closing=True):
+            body = 's' + d + (esc_delim(pat.nv, d) if pat else '') + d + esc_delim(''.join(t[0] for t in toks), d) + (d + ('g' if g else '') if closing else '')
+            return {'range': rg, 'text': rtxt + body, 'body': body, 'pat': pat, 'toks': toks, 'g': g}
+
+        def pick_range(nl):
+            b = rng.range(1, nl)
+            return rng.choice([('%', (1, nl)), ('%', (1, nl)), ('%d' % b, (b, b)), ('%d,%d' % (b, nl), (b, nl))])
+
+        # the flag stream: rep/g, rep/, rep  -- the replacement is made of g and other flag-like bytes
+        for i in range(260 if ctx.quick else 5000):
+            ic = 1 if rng.chance(1, 4) else 0
+            pat, smp = gen_flag_pattern(rng, ic)
+            toks = gen_flag_rep(rng)
+            nl = rng.choice([1, 1, 2, 3])
+            lines = [gen_flag_line(rng, smp) for _ in range(nl)]
+            d = rng.choice(DELIMS)
+            rtxt, rg = pick_range(nl)
+            again = rng.chance(1, 6)
+            toks2 = gen_flag_rep(rng)
+            for form, (g, closing) in (('rep/g', (True, True)), ('rep/', (False, True)), ('rep', (False, False))):
+                cmds = [one_cmd(rtxt, rg, d, pat, toks, g, closing)]
+                if again:                   # the remembered pattern with a new replacement: the flag is read afresh
+                    cmds.append(one_cmd('%', (1, nl), d, None, toks2, not g, True))
+                cases.append({'ic': ic, 'lines': lines, 'cmds': cmds, 'kind': 'flag stream', 'corpus': False, 'flagform': form})
+        # the interval stream: each (pattern, buffer) with and without g
+        for i in range(300 if ctx.quick else 6000):
+            ic = 1 if rng.chance(1, 5) else 0
+            shape, pat, units, m, toks = gen_interval_pattern(rng, ic)
+            nl = rng.choice([1, 1, 2, 3])
+            lines = [gen_interval_line(rng, units, m) for _ in range(nl)]
+            d = rng.choice(DELIMS)
+            rtxt, rg = pick_range(nl)
+            for g in (True, False):
+                cases.append({'ic': ic, 'lines': lines, 'cmds': [one_cmd(rtxt, rg, d, pat, toks, g)], 'kind': 'interval stream', 'corpus': False,
+                              'interval': shape, 'interval_m': m, 'interval_units': units})
+        # the backslash stream: each (pattern, buffer) with and without g, closing delimiter always typed
+        for i in range(220 if ctx.quick else 4000):
+            d = rng.choice(DELIMS)
+            pat, smp, toks = gen_bslash_case(rng, d)
+            nl = rng.choice([1, 1, 2, 3])
+            lines = [gen_bslash_line(rng, smp) for _ in range(nl)]
+            rtxt, rg = pick_range(nl)
+            again = rng.chance(1, 6)
+            for g in (True, False):
+                cmds = [one_cmd(rtxt, rg, d, pat, toks, g)]
+                if again:
+                    cmds.append(one_cmd('%', (1, nl), d, None, [('Z', 'lit', 'Z')], True))
+                cases.append({'ic': 0, 'lines': lines, 'cmds': cmds, 'kind': 'backslash stream', 'corpus': False, 'bslash': True})
 
     # ---------------------------------------------------------------- implementation
     def script_of(c):
@@ -781,6 +998,25 @@ def run(ctx):
                     m0 = rx0.search(c['lines'][ln])
                     if m0 and m0.start() == 0 and k >= 2:
                         res.count('anchor stream, first of several matches at column 0')
+        if c.get('flagform'):
+            cm = c['cmds'][0]
+            rx0 = re.compile(cm['pat'].py)
+            multi = any(py_subst(c['lines'][ln], rx0, rx0, cm['toks'], True, False)[1] >= 2 for ln in range(cm['range'][0] - 1, cm['range'][1]))
+            hasg = any('g' in t[2] for t in cm['toks'] if t[1] == 'lit')
+            res.count('flag stream, form %s' % c['flagform'])
+            if hasg and multi and not cm['g']:
+                res.count('flag stream: no g flag, a g in the replacement, an addressed line with two or more matches')
+            if hasg and multi and cm['g']:
+                res.count('flag stream: g flag and a g in the replacement, an addressed line with two or more matches')
+        if c.get('interval'):
+            cm = c['cmds'][0]
+            res.count('interval stream, operator %s' % re.sub(r'^[\^c(]|[$c)]$|\|c$', '', c['interval']))
+            m, us = c['interval_m'], sorted(c['interval_units'], key=len, reverse=True)
+            runs = re.findall('(?:%s)+' % '|'.join(re.escape(u) for u in us), ''.join(l + '\n' for l in c['lines'][cm['range'][0] - 1:cm['range'][1]]))
+            if len(set(len(u) for u in us)) == 1 and any(len(r) // len(us[0]) > m and (len(r) // len(us[0])) % m for r in runs):
+                res.count('interval stream: a run longer than m whose length is not a multiple of m')
+        if c.get('bslash'):
+            res.count('backslash stream, %s' % ('with g' if c['cmds'][0]['g'] else 'without g'))
         if got_file == variants['ideal']:
             continue
         word = any(p.word for p in pats)
@@ -790,6 +1026,7 @@ def run(ctx):
             v['what'] = 'a later search of :s///g sees only the rest of the line: \\< / \\> at its start are judged without the real left neighbour'
             res.violation(v, kf='KF-LCTX')
         else:
+            res.count('VIOLATING cases, %s' % c['kind'].split(',')[0])
             c2 = shrink_case(c)
             if c2 is not c and failing(c2):
                 want2 = reference(c2, False)
